@@ -418,3 +418,44 @@ PROPS["C09"] = dict(
         _bls("verifH_C09_bls", ["bls_c09.go.txt"], params={"gN": 3, "gT": 2, "gConcrete": 0}, name="BLS n=3 t=2", count=["assert:C09-", "panic:"], covers=["end", "wrong-signer-index-rejected", "foreign-share-rejected"], bounds={"n": 3, "t": 2}),
     ],
 )
+
+
+def _ps(entry, files, params=None, name=None, count=None, covers=None, bounds=None, extra=None, tiers=None, only=None, **kw):
+    d = dict(name=name or entry, dir="mpc/ps", files=files + ["ps_common.go.txt", "ps_model.go.txt"], entry=entry, args=_PS_ARGS + (extra or []), params=params or {},
+             count=count, expect_covers=covers or [], bounds=bounds or {}, tiers=tiers or {}, replay_args=["-nativeredirect"])
+    if only:
+        d["only_tiers"] = only
+    d.update(kw)
+    return d
+
+
+PROPS["C08"] = dict(
+    level="model_checking",
+    explanation="S2, honest: the real TPS.Init/KeyGen/OnMsg of n parties, ThresholdPK, Prover.Init/Blind, TPS.Sign on every party, Prover.UnBlind (its pairing check is part of the assertion), "
+                "ProveKnowledgeOfSignature for every signer set of size >= t, Verifier.Init/Verify; all DKG and blinding randomness symbolic; polynomial identities decided exactly",
+    assumptions=_ALG_ENV + ["ps.psuedoRandomG2 (calls gnark directly) replaced by a fixed G2 element with unknown non-zero exponent", "party ids 1..n (the prover uses the id itself as evaluation point)",
+                            "message entries: the hash-to-scalar of a byte string is an uninterpreted non-zero field element, so entries are distinguished only by which are equal",
+                            "canonical goroutine schedule, messages delivered in send order"],
+    outside=["the real curve", "n > 3, L > 2 (quick) / n > 4, L > 3 (thorough)", "party identifiers other than 1..n"],
+    runs=[
+        _ps("verifH_C08_threshold", ["ps_c08.go.txt"], params={"pN": 3, "pT": 2, "pL": 1}, name="n=3 t=2 L=1", count=["assert:C08-", "panic:", "deadlock:"], covers=["end"], bounds={"n": 3, "t": 2, "L": 1, "signer sets": "all of size >= t"}),
+        _ps("verifH_C08_threshold", ["ps_c08.go.txt"], params={"pN": 3, "pT": 2, "pL": 2}, name="n=3 t=2 L=2", count=["assert:C08-", "panic:", "deadlock:"], covers=["end"], bounds={"n": 3, "t": 2, "L": 2, "entries": "equal or different"}),
+        _ps("verifH_C08_threshold", ["ps_c08.go.txt"], params={"pN": 3, "pT": 3, "pL": 1}, name="n=3 t=3 L=1", count=["assert:C08-", "panic:", "deadlock:"], covers=["end"], bounds={"n": 3, "t": 3, "L": 1}),
+        _ps("verifH_C08_threshold", ["ps_c08.go.txt"], params={"pN": 2, "pT": 2, "pL": 2}, name="n=2 t=2 L=2", count=["assert:C08-", "panic:", "deadlock:"], covers=["end"], bounds={"n": 2, "t": 2, "L": 2}),
+        _ps("verifH_C08_local", ["ps_c08.go.txt"], name="single signer flow (LocalKeyGen)", count=["assert:C08-", "panic:"], covers=["end"], bounds={"L": 1}),
+        _ps("verifH_C08_threshold", ["ps_c08.go.txt"], params={"pN": 4, "pT": 3, "pL": 1}, name="n=4 t=3 L=1", count=["assert:C08-", "panic:", "deadlock:"], covers=["end"], bounds={"n": 4, "t": 3, "L": 1}, only=["thorough"]),
+        _ps("verifH_C08_threshold", ["ps_c08.go.txt"], params={"pN": 3, "pT": 2, "pL": 3}, name="n=3 t=2 L=3", count=["assert:C08-", "panic:", "deadlock:"], covers=["end"], bounds={"n": 3, "t": 2, "L": 3}, only=["thorough"]),
+    ],
+)
+PROPS["C09"]["runs"] += [
+    _ps("verifH_C09_ps", ["ps_c09.go.txt"], name="PS: idempotence, no mutation, 12 tamper classes on request / proof / key / blind signature", count=["assert:C09-", "panic:"],
+        covers=["end", "request-commitment-refused"], bounds={"L": 1, "component moved by": "an arbitrary non-zero amount", "classes": 12}),
+]
+PROPS["C10"]["runs"] += [
+    _ps("verifH_C10_ps_sign", ["ps_c10.go.txt"], name="TPS.Sign (untrusted signing request)", extra=["-asn1havoc"], count=["panic:", "deadlock:"], covers=["refused", "returned"], shards=16, shard_depth=6, no_native_replay=True,
+        bounds={"request": "malformed, or an arbitrary RawBlindSignature / RawBlindCorrectProof (vectors of length 0..2, elements well-formed or raw)"}),
+    _ps("verifH_C10_ps_verify", ["ps_c10.go.txt"], name="ps.Verifier.Verify (untrusted proof)", extra=["-asn1havoc", "-asn1maxvec", "5"], count=["panic:", "deadlock:"], covers=["rejected", "returned"], no_native_replay=True,
+        bounds={"proof": "malformed, or arbitrary vectors of length 0..5"}),
+    _ps("verifH_C10_ps_onmsg", ["ps_c10.go.txt"], name="TPS.OnMsg then the KeyGen steps consuming the stored share / key", extra=["-asn1havoc"], count=["panic:", "deadlock:"], covers=["returned", "share-stored", "key-stored"], no_native_replay=True,
+        bounds={"message": "share / commitment / reveal with arbitrary payload (vectors of length 0..2)"}),
+]
